@@ -58,6 +58,7 @@ def generate(ctx):
                               digests=[digest(m["data"]) for m in c["members"]], spans=any("block" in x for x in c["meta"].get("cuts", [])),
                               nontrivial=True)
     yield from param_mismatch(ctx)
+    yield from one_sided(ctx)
     # refused joins
     for k in range(n):
         a = gen_set(rng, rng.choice([2, 3])); b = gen_set(rng, 2)
@@ -138,6 +139,28 @@ def param_mismatch(ctx):
         lines += ["dump i0 h0", "dump i0 h1", bad, "dump i0 h0", "dump i0 h1", "close i0 h0", "close i0 h1", "destroy i0"]
         done += 1
         yield lines, dict(family="cab.refused", scenario="split-folder-params", method=method, bits=[bits, nb], altered=which, nwatch=2, npre=0, nontrivial=True)
+
+def one_sided(ctx):
+    """non-fitting pairs in which only ONE side has a split folder: a part that continues joined to a complete
+    cabinet, a complete cabinet joined to a part that continues from a previous one, two first parts, two last parts"""
+    rng = ctx.rng
+    n = 6 if ctx.tier == "quick" else 60
+    done = 0
+    for _ in range(n * 8):
+        if done >= n: break
+        a = gen_set(rng, 2); b = gen_set(rng, 1); a2 = gen_set(rng, 2)
+        if a is None or b is None or a2 is None: continue
+        if not all("block" in x for x in a["meta"].get("cuts", ["folder"])) or not all("block" in x for x in a2["meta"].get("cuts", ["folder"])): continue
+        an = a["meta"]["order"]; bn = b["meta"]["order"]; a2n = a2["meta"]["order"]
+        files = [f"file A_{nm} {bts.hex()}" for nm, bts in a["files"].items()] + [f"file B_{nm} {bts.hex()}" for nm, bts in b["files"].items()] + \
+                [f"file C_{nm} {bts.hex()}" for nm, bts in a2["files"].items()]
+        opens = ["new cab", f"open i0 A_{an[0]}", f"open i0 A_{an[1]}", f"open i0 B_{bn[0]}", f"open i0 C_{a2n[0]}", f"open i0 C_{a2n[1]}"]
+        # h0 = A first (continues), h1 = A last (continued), h2 = B complete, h3 = C first, h4 = C last
+        for (l, r, what) in ((0, 2, "continuing part + complete cabinet"), (2, 1, "complete cabinet + continued part"), (0, 3, "two first parts"), (1, 4, "two last parts")):
+            bad = rng.choice([f"append i0 h{l} h{r}", f"prepend i0 h{r} h{l}"])
+            lines = files + opens + [f"dump i0 h{l}", f"dump i0 h{r}", bad, f"dump i0 h{l}", f"dump i0 h{r}"] + [f"close i0 h{k}" for k in range(5)] + ["destroy i0"]
+            yield lines, dict(family="cab.refused", scenario="one-sided: " + what, nwatch=2, npre=0, nontrivial=True)
+        done += 1
 
 def dumps(blocks):
     return [b for b in blocks if b[0].startswith("dump")]
